@@ -451,7 +451,21 @@ def null1(ctx: Ctx) -> None:
                     guarded = True
                 if isinstance(a, ast.IfExp) and norm(a.test) in (f"{addr} != 0", addr) and any(c is x for x in ast.walk(a.body)):
                     guarded = True
-            if guarded:
+            # what does a NULL word look like in the list the addresses come from?  c_size_t & co. read it as 0, c_void_p & co. as None
+            reads = [x for x in ast.walk(fn) if isinstance(x, ast.Attribute) and x.attr == "value" and isinstance(x.value, ast.Call) and isinstance(x.value.func, ast.Attribute)
+                     and x.value.func.attr == "from_address" and norm(x.value.func.value).startswith("ctypes.c_") and isinstance(m310.parent_of(x), (ast.ListComp, ast.GeneratorExp))]
+            kinds = {norm(x.value.func.value).split(".")[-1] for x in reads}
+            ptr_read = bool(kinds & {"c_void_p", "c_char_p", "c_wchar_p"})
+            int_read = bool(kinds) and not ptr_read
+            tests = [norm(a.test) for a in m310.ancestors(c) if isinstance(a, ast.IfExp)]
+            if guarded and ptr_read and not any(t_ in (f"not {addr}", addr, f"{addr} is None", f"{addr} is not None") for t_ in tests):
+                ctx.R.fail("NULL-1", m310, c, f"the stack words are read as {sorted(kinds)}, whose .value is None for a NULL pointer, but the NULL guard tests `{tests[0] if tests else '?'}`: a NULL slot "
+                           "(3.9 / 3.10 push NULLs for the saved exception state of an except / finally block) passes the guard and ctypes.cast raises ValueError: the frame's contexts are lost",
+                           construct="NULL guard does not match the read type of the stack words")
+            elif guarded and int_read and any(t_ in (f"{addr} is None", f"{addr} is not None") for t_ in tests) and not any(t_ in (f"{addr} == 0", f"not {addr}", f"{addr} != 0", addr) for t_ in tests):
+                ctx.R.fail("NULL-1", m310, c, f"the stack words are read as {sorted(kinds)} (NULL reads as 0) but the guard tests for None: address 0 is cast to py_object and dereferenced (segfault)",
+                           construct="NULL guard does not match the read type of the stack words")
+            elif guarded:
                 ctx.R.ok("NULL-1", f"_lowlevel_cpython_310.inspect_frame: {norm(c)}", "guarded by address == 0")
             else:
                 ctx.R.fail("NULL-1", m310, c, "casting address 0 to py_object and reading .value dereferences NULL (segfault)")
